@@ -285,6 +285,10 @@ def gen_cases(ctx):
         if mine():
             yield {"k": "expr", "text": f"range {a} {b}", "proto": "tcp", "platform": rng.choice(["ios", "nxos"]),
                    "history": views[:] + [rng.choice(views)]}
+    for text in ("neq 1 65535", "neq 1 2 65535", "neq 1 65534 65535", "neq 65535 1 300", "range 1024 2000", "range 2000 1024",
+                 "range 49152 50000", "range 1023 1024", "range 1024 65535", "gt 1023", "lt 1024", "gt 49151", "range 49152 65535"):
+        if mine():
+            yield {"k": "expr", "text": text, "proto": "tcp", "platform": "ios", "history": ["sport", "ports", "items", "sport"]}
     for iset in [(), ((1, 1),), ((65535, 65535),), ((1, 65535),), ((1, 1), (3, 3), (5, 7), (65535, 65535)),
                  ((16380, 16390),), ((1, 2), (65534, 65535))]:
         if mine():
